@@ -105,6 +105,12 @@ def closedB (doc : Doc) (k : Keep) (S : List Ref) : Bool :=
     (!(k.sel (fun r => decide (r ∈ S)) o) || decide (o.key ∈ S)) &&
     (!(decide (o.key ∈ S)) || o.refs.all fun r => !(presentB doc r) || decide (r ∈ S))
 
+/-- decidable form of `ClosedD doc k (· ∈ S)` (Dup.lean): the closure clauses for documents that repeat an id —
+every selected element's id is in `S`; every id in `S` has a version in the document whose present references are in `S` -/
+def closedDB (doc : Doc) (k : Keep) (S : List Ref) : Bool :=
+  (doc.all fun o => !(k.sel (fun r => decide (r ∈ S)) o) || decide (o.key ∈ S)) &&
+  (S.all fun r => doc.any fun o => o.key == r && o.refs.all fun r' => !(presentB doc r') || decide (r' ∈ S))
+
 def uniqueKeysB (doc : Doc) : Bool :=
   doc.all fun o => doc.all fun o' => !(o.key == o'.key) || o == o'
 
